@@ -43,7 +43,7 @@ def macro_route(V, tier):
         main.append("    for inp in &inputs { evals += 1; let a = m%d::run(inp); let b = l%d::run(inp); if a.starts_with(\"Ok\") { ok_parses += 1; } if a != b { bad.push(serde_json::json!({\"case\": %d, \"input\": inp, \"macro\": a, \"library\": b})); } } }" % (i, i, i))
     main.append('  println!("{}", serde_json::json!({"evals": evals, "ok_parses": ok_parses, "bad": bad})); }')
     open(os.path.join(wd, "src", "main.rs"), "w").write("\n".join(main))
-    p = subprocess.run(["cargo", "run", "--offline", "-q"], cwd=wd, env=V.env(), stdout=subprocess.PIPE, stderr=subprocess.PIPE, text=True)
+    p = subprocess.run(["cargo", "run", "--offline", "-q"], cwd=wd, env=V.env(os.path.join(wd, "target")), stdout=subprocess.PIPE, stderr=subprocess.PIPE, text=True)
     if p.returncode != 0:
         # a macro expansion that does not compile where the library output does is a violation of the property
         return 0, 0, [{"kind": "macro-route-does-not-compile", "grammar": None, "input": None, "site": "peginate!",
